@@ -195,13 +195,12 @@ Proof.
     rewrite read_items_eq.
     rewrite mem_false_notin by (intros Hin; apply Hvis in Hin; lia).
     rewrite (Hg (n + 1)%N (OItem itm)) by (right; left; reflexivity).
-    cbv zeta. simpl i_title. rewrite (strip_clean t Hct).
+    unfold itm. cbn [i_title i_dest i_flags i_color i_next i_first]. rewrite (strip_clean t Hct).
     destruct t as [|b t']; [simpl in Hne; discriminate|].
     destruct (HR (n + 1)%N itm) as [k0 [Hd HRk]]; [right; left; reflexivity|].
-    simpl in Hd. inversion Hd; subst k0. simpl i_dest. cbv iota.
+    unfold itm in Hd. simpl in Hd. inversion Hd; subst k0.
     unfold page_of. rewrite HRk. replace (n + 1 - 1)%N with n by lia.
     rewrite (Hg n (ODest p)) by (left; reflexivity).
-    simpl i_flags. simpl i_color. simpl i_next. simpl i_first.
     destruct (style_decode bo it) as [Hbo Hit]. cbv zeta in Hbo, Hit. rewrite Hbo, Hit.
     (* kids *)
     assert (Hkids : exists vis2,
@@ -273,8 +272,8 @@ Proof.
   - intros id it Hin. unfold dests_resolve in Hres. rewrite forallb_forall in Hres.
     specialize (Hres _ Hin). simpl in Hres.
     destruct (i_dest it) as [|k|p]; try discriminate.
-    destruct (tvalue T k) as [d|]; try discriminate.
-    apply N.eqb_eq in Hres. subst d. exists k. split; reflexivity.
+    destruct (tvalue T k) as [d|] eqn:Etv; try discriminate.
+    apply N.eqb_eq in Hres. subst d. exists k. split; [reflexivity | exact Etv].
   - intros v [].
   - exact Hclean.
   - exact Hchk.
